@@ -1,7 +1,7 @@
 from vlib.core import *
 
 META = dict(
-    level_text="Proved for EVERY behaviour of the numeric kernels (every rounding outcome, every operator, every small eigen-solver result, exceptions at any call), every configuration, every argument tuple incl. maxit = 0/1, every prior object state and every history of init/compute/accessor calls, on one orchestration model shared by HermEigsBase and GenEigsBase: compute()'s return value = eigenvalues().size() = eigenvectors().cols() <= nev, eigenvectors(m) has min(m, count) columns, info() is Successful exactly when that number is nev and NotConverging otherwise (c05_counts, c05_counts_any_history); the flags handed back were computed from the Ritz pairs of the final factorization (c05_flags_fresh); eigenvalues()/eigenvectors(nvec) walk one index list in stored order and sort_ritzpair permutes values, vectors and flags by one index vector (c05_accessor_pairing, c05_sort_pairing; with C18's c18_sorted this is the ordering clause); at most maxit restarts and num_iterations() grows by i+1 (c05_maxit); before any compute() info() is NotComputed and the accessors are empty (c05_before_compute); a throwing compute() leaves info()/num_iterations() unchanged (c05_throwing_compute); init() resets the counters and num_operations() then counts what the factorization reports (c05_init_counters, c05_nmatop_monotone); the iteration counter, status, return value and flag-refresh condition of the model are the functions regenerated on every run from the statements after the restart loop of both compute() functions (c05_status_from_source, c05_status_same_both_families), and so are the loop frame and the break condition (c05_loop_from_source); the eigenvalues() and eigenvectors(nvec) loops of both base classes are translated from the source as well and proved to fill exactly the model's lists, in stored order, for every object state (c05_eigenvalues_loop_from_source, _gen, c05_eigenvectors_loop_from_source), and the convergence flags of the numeric instances are, entry by entry, the Eigen array expression of num_converged translated elementwise from the source (c05_flags_from_source_herm, _gen). The SAME definitions instantiated with the executable Lanczos / TridiagQR / TridiagEigen kernel models and the source-translated argsort / nev_adjusted are run at Float (and at Float32 for Scalar = float) against the real SymEigsSolver and SymEigsShiftSolver, and the general family's numeric instance (Model/GenSolver.lean) against the real GenEigsSolver and GenEigsRealShiftSolver, on random histories: return value, status, counters, eigenvalues, eigenvectors and a hash of the whole factorization object must agree bit for bit. HermEigsSolver with Scalar = std::complex<double> is inside the executable model as well (Model/HermCplx.lean: complex scalars as pairs with libstdc++/GCC's multiplication and libgcc's __divdc3 division, complex Lanczos / init / expand_basis / compress_V kernels in Eigen's evaluation order, real Ritz data; hermc request lines): c05_counts and c05_flags_fresh are stated for that kernel record (c05c_counts, c05c_flags_fresh), its final sort is the real family's (c05c_sort_same), and at an exact field every complex kernel restricted to zero imaginary parts is the real kernel (c05c_real_embedding). The property's own predicate (incl. a counting operator wrapper for num_operations) is evaluated after every call on all eleven Arnoldi/Lanczos-family classes.",
+    level_text="Proved for EVERY behaviour of the numeric kernels (every rounding outcome, every operator, every small eigen-solver result, exceptions at any call), every configuration, every argument tuple incl. maxit = 0/1, every prior object state and every history of init/compute/accessor calls, on one orchestration model shared by HermEigsBase and GenEigsBase: compute()'s return value = eigenvalues().size() = eigenvectors().cols() <= nev, eigenvectors(m) has min(m, count) columns, info() is Successful exactly when that number is nev and NotConverging otherwise (c05_counts, c05_counts_any_history); the flags handed back were computed from the Ritz pairs of the final factorization (c05_flags_fresh); eigenvalues()/eigenvectors(nvec) walk one index list in stored order and sort_ritzpair permutes values, vectors and flags by one index vector (c05_accessor_pairing, c05_sort_pairing; with C18's c18_sorted this is the ordering clause); at most maxit restarts and num_iterations() grows by i+1 (c05_maxit); before any compute() info() is NotComputed and the accessors are empty (c05_before_compute); a throwing compute() leaves info()/num_iterations() unchanged (c05_throwing_compute); init() resets the counters and num_operations() then counts what the factorization reports (c05_init_counters, c05_nmatop_monotone); the iteration counter, status, return value and flag-refresh condition of the model are the functions regenerated on every run from the statements after the restart loop of both compute() functions (c05_status_from_source, c05_status_same_both_families), and so are the loop frame and the break condition (c05_loop_from_source); the eigenvalues() and eigenvectors(nvec) loops of both base classes are translated from the source as well and proved to fill exactly the model's lists, in stored order, for every object state (c05_eigenvalues_loop_from_source, _gen, c05_eigenvectors_loop_from_source), and the convergence flags of the numeric instances are, entry by entry, the Eigen array expression of num_converged translated elementwise from the source (c05_flags_from_source_herm, _gen); the copy loops of retrieve_ritzpair and sort_ritzpair (values, estimates from row ncv-1, column choices, flags; the three swaps) are translated as well and proved to store exactly what the model's retrieve/sortRitz store (c05_retrieve_from_source, c05_sort_from_source, _gen). The SAME definitions instantiated with the executable Lanczos / TridiagQR / TridiagEigen kernel models and the source-translated argsort / nev_adjusted are run at Float (and at Float32 for Scalar = float) against the real SymEigsSolver and SymEigsShiftSolver, and the general family's numeric instance (Model/GenSolver.lean) against the real GenEigsSolver and GenEigsRealShiftSolver, on random histories: return value, status, counters, eigenvalues, eigenvectors and a hash of the whole factorization object must agree bit for bit. HermEigsSolver with Scalar = std::complex<double> is inside the executable model as well (Model/HermCplx.lean: complex scalars as pairs with libstdc++/GCC's multiplication and libgcc's __divdc3 division, complex Lanczos / init / expand_basis / compress_V kernels in Eigen's evaluation order, real Ritz data; hermc request lines): c05_counts and c05_flags_fresh are stated for that kernel record (c05c_counts, c05c_flags_fresh), its final sort is the real family's (c05c_sort_same), and at an exact field every complex kernel restricted to zero imaginary parts is the real kernel (c05c_real_embedding). The property's own predicate (incl. a counting operator wrapper for num_operations) is evaluated after every call on all eleven Arnoldi/Lanczos-family classes.",
     note="Lean kernel + standard axioms; translator; correspondence cases are limited to ncv <= 16 (std::sort modelled as stable insertion sort, exact up to 16 elements in libstdc++); the complex-shift class is covered by the shared orchestration theorems and the oracle only; std::complex products/quotients are modelled on non-NaN data (GCC calls __muldc3 / the NaN tail of __divdc3 only when a NaN arises); generalized shift solvers' operation counter is not independently counted",
     technique="Lean 4 proof (induction over the restart loop and over histories, all kernels universally quantified) + bit-exact differential correspondence of the executable instance + oracle on the implementation",
     design="§5 C05", harnesses=['c05'])
@@ -17,7 +17,7 @@ def run(tier, seed, replay=None):
         out = os.path.join(R.work, 'replay'); rc, hlog = run_harness(exe, out, seed, tier, ['--replay', replay])
         R.failures += load_oracle(os.path.join(out, 'oracle.jsonl'))
         return R.finish()
-    standard_prove(R, 'C05', ['Sort', 'Restart', 'Givens', 'Rand', 'Status', 'Access', 'Conv'])
+    standard_prove(R, 'C05', ['Sort', 'Restart', 'Givens', 'Rand', 'Status', 'Access', 'Conv', 'Copy'])
     # companion theorem file for the complex Hermitian instance (Properties/C05c.lean): build + the same audit
     with Lock('lean'):
         modc = 'SpectraVerif.Properties.C05c'
